@@ -510,7 +510,11 @@ func main() {
 		} else {
 			if isData {
 				dg.counts = g.counts
-				funcs = dg.program()
+				if k := len(progs) - len(corpus) - *n; k < numSweeps {
+					funcs = dg.sweepProgram(k)
+				} else {
+					funcs = dg.program()
+				}
 			} else {
 				funcs = g.program()
 			}
